@@ -96,6 +96,14 @@ PROPERTIES = {
         "thorough": [{"match": "VerifH_c17_.*", "timeout": 3000, "shards": {"VerifH_c17_scan_step": 6, "VerifH_c17_full_iteration": 8}, "sharddepth": 8}],
         "bounds": {}, "outside": [], "assumptions": [],
     },
+    "C19": {
+        "level": "model_checking",
+        "quick": [{"match": "VerifH_c19_.*", "timeout": 900, "shards": {"VerifH_c19_l2_dirty": 10}, "sharddepth": 12,
+                   "allow_unsupported": ["non-ASCII", "symbolic allocation size", "ParseFloat", "opaque"]}],
+        "thorough": [{"match": "VerifH_c19_.*", "timeout": 3000, "shards": {"VerifH_c19_l2_dirty": 12}, "sharddepth": 12,
+                   "allow_unsupported": ["non-ASCII", "symbolic allocation size", "ParseFloat", "opaque"]}],
+        "bounds": {}, "outside": [], "assumptions": [],
+    },
     "C18": {
         "level": "model_checking",
         "quick": [{"match": "VerifH_c18_.*", "timeout": 500,
